@@ -166,6 +166,17 @@ fn one_case(t: i32, i: usize, ctx: &Ctx, rep: &mut Report) {
     // every 7th file holds 9..40 records (periodic work per N records must not skip a box update)
     let n = if i % 7 == 6 && !cfg!(miri) { 9 + r.usize_in(0, 31) } else { r.usize_in(1, ctx.pick(5, 12)) };
     let mut inputs: Vec<Vec<(i32, Vec<V>)>> = (0..n).map(|_| gen_input(t, &mut r, &c)).collect();
+    // every 9th case of the multi-part types: one shape with 17..40 parts
+    if i % 9 == 4 && !gen::is_point(t) && !gen::is_multipoint(t) && !cfg!(miri) {
+        let many = Cfg { max_parts: 40, ..c };
+        let mut inp = gen_input(t, &mut r, &many);
+        while inp.len() < 17 {
+            inp.extend(gen_input(t, &mut r, &many));
+        }
+        let si = r.usize_in(0, inputs.len() - 1);
+        inputs[si] = inp;
+        rep.count("shapes_with_17_or_more_parts", 1);
+    }
     // dedicated large cases: one shape gets a LATER part (or, for multipoints, its only part)
     // whose vertex count straddles a power of two, with an extreme forced into one of its last
     // or first four vertices (vectorised / chunked folds drop exactly those)
@@ -298,6 +309,9 @@ fn one_case(t: i32, i: usize, ctx: &Ctx, rep: &mut Report) {
         match route {
             0 => {
                 let mut w = ShapeWriter::new(&mut shp);
+                if i % 4 == 3 {
+                    w.finalize()?; // a finalize before the first write: the running box starts from its initial state all the same
+                }
                 for (k, s) in shapes.iter().enumerate() {
                     write_one(&mut w, s)?;
                     // every second file of this route: a finalize between two writes as well
@@ -431,6 +445,54 @@ fn one_case(t: i32, i: usize, ctx: &Ctx, rep: &mut Report) {
 pub fn run(ctx: &Ctx) -> Report {
     let n = if cfg!(miri) { 3 } else { ctx.pick(2_000, 60_000) };
     let mut rep = par(ctx, TYPES.len() * n, |idx, rep| one_case(TYPES[idx / n], idx % n, ctx, rep));
+    // ---- shapes built by the geo-types constructors carry the box of their own vertices too
+    if !cfg!(miri) {
+        use geo_types as g;
+        for i in 0..ctx.pick(400, 4000) {
+            let case = format!("c05:geo-constructor:i{}", i);
+            if !ctx.want(&case) {
+                continue;
+            }
+            let mut r = Rng::derive(ctx.seed, &[tag("c05-geo"), i as u64]);
+            let cfg = Cfg { pool: Pool::Mixed, dens: if i % 3 == 0 { 0.3 } else { 0.0 }, allow_inf: true, nan_zm: false, max_parts: 4, max_len: 8 };
+            let mut co = |r: &mut Rng| g::Coord { x: gen::coord(r, &cfg, false), y: gen::coord(r, &cfg, false) };
+            let line = |r: &mut Rng, co: &mut dyn FnMut(&mut Rng) -> g::Coord<f64>| g::LineString((0..r.usize_in(2, 8)).map(|_| co(r)).collect::<Vec<_>>());
+            let built: Vec<(&str, Shape)> = match i % 5 {
+                0 => {
+                    let l = g::Line::new(co(&mut r), co(&mut r));
+                    vec![("Polyline::from(Line)", Shape::Polyline(Polyline::from(l))), ("PolylineM::from(Line)", Shape::PolylineM(PolylineM::from(l))), ("PolylineZ::from(Line)", Shape::PolylineZ(PolylineZ::from(l)))]
+                }
+                1 => {
+                    let l = line(&mut r, &mut co);
+                    vec![("Polyline::from(LineString)", Shape::Polyline(Polyline::from(l.clone()))), ("PolylineZ::from(LineString)", Shape::PolylineZ(PolylineZ::from(l)))]
+                }
+                2 => {
+                    let ml = g::MultiLineString((0..r.usize_in(1, 4)).map(|_| line(&mut r, &mut co)).collect::<Vec<_>>());
+                    vec![("Polyline::from(MultiLineString)", Shape::Polyline(Polyline::from(ml.clone()))), ("PolylineM::from(MultiLineString)", Shape::PolylineM(PolylineM::from(ml)))]
+                }
+                3 => {
+                    let mp = g::MultiPoint((0..r.usize_in(1, 8)).map(|_| g::Point(co(&mut r))).collect::<Vec<_>>());
+                    vec![("Multipoint::from(MultiPoint)", Shape::Multipoint(Multipoint::from(mp.clone()))), ("MultipointZ::from(MultiPoint)", Shape::MultipointZ(MultipointZ::from(mp)))]
+                }
+                _ => {
+                    let ext = line(&mut r, &mut co);
+                    let holes: Vec<g::LineString<f64>> = (0..r.usize_in(0, 2)).map(|_| line(&mut r, &mut co)).collect();
+                    let p = g::Polygon::new(ext, holes);
+                    vec![("Polygon::from(geo Polygon)", Shape::Polygon(Polygon::from(p.clone()))), ("PolygonZ::from(geo Polygon)", Shape::PolygonZ(PolygonZ::from(p)))]
+                }
+            };
+            for (name, s) in built {
+                let d = s.d();
+                rep.eval();
+                rep.count("geo_types_constructors_checked", 1);
+                for k in [0usize, 1] {
+                    if let (Some(want), Some((lo, hi))) = (fold(&[&d], k), box_component(&d.bbox, d.ty, k)) {
+                        cmp(&mut rep, &format!("ctor[{}]", name), d.ty, k, lo, hi, &want, &case, &|| d.to_json());
+                    }
+                }
+            }
+        }
+    }
     if ctx.only.is_none() {
         let h = rep.counters.get("header_box_components_checked").copied().unwrap_or(0);
         rep.guard("header components checked", h, (TYPES.len() * n) as u64);
